@@ -13,6 +13,14 @@
 #include "../engine/json.hpp"
 #include "../engine/mc.hpp"
 
+#ifdef VP_LATE_DEFINE
+// The compile-time minimum is defined by the program itself, after some nitro log headers have already been seen
+// (a wrapper header typically does this); it must be the one in effect for every statement below.
+#include <nitro/log/severity.hpp>
+#include <nitro/log/filter/severity_filter.hpp>
+#include <nitro/log/sink/sequence.hpp>
+#define NITRO_LOG_MIN_SEVERITY VP_LATE_DEFINE
+#endif
 #include <nitro/log/attribute/message.hpp>
 #include <nitro/log/attribute/severity.hpp>
 #include <nitro/log/attribute/tag.hpp>
@@ -25,6 +33,7 @@
 #include <nitro/log/log.hpp>
 #include <nitro/log/sink/sequence.hpp>
 
+#include <cstring>
 #include <iomanip>
 #include <sstream>
 
@@ -204,6 +213,8 @@ enum
     I_MARK,
     I_HEX,
     I_NEST, // callable that itself logs (same logger, same severity) before returning its text
+    I_NULL, // a null const char*: puts the statement's stream into a failed state (later insertions print nothing,
+            // but callables streamed afterwards are still evaluated and the record is still emitted)
     I_KINDS
 };
 
@@ -278,6 +289,7 @@ void feed_named(Stream& s, const Stmt& st)
         case I_CALLB: s << CallB{ id }; break;
         case I_MARK: s << Marker{ id }; break;
         case I_HEX: s << std::hex; break;
+        case I_NULL: s << static_cast<const char*>(nullptr); break;
         default: s << CallNest<L, SEV>{ id }; break;
         }
     }
@@ -300,8 +312,35 @@ void feed_chain(Stream&& s, const Stmt& st, size_t p)
     case I_CALLB: feed_chain<L, SEV>(std::move(s) << CallB{ id }, st, p + 1); break;
     case I_MARK: feed_chain<L, SEV>(std::move(s) << Marker{ id }, st, p + 1); break;
     case I_HEX: feed_chain<L, SEV>(std::move(s) << std::hex, st, p + 1); break;
+    case I_NULL: feed_chain<L, SEV>(std::move(s) << static_cast<const char*>(nullptr), st, p + 1); break;
     default: feed_chain<L, SEV>(std::move(s) << CallNest<L, SEV>{ id }, st, p + 1); break;
     }
+}
+
+// The tag of a named stream is handed over in a caller-owned buffer that is overwritten as soon as the statement has
+// been issued; the delivered tag must be the text at the time of the call.
+inline char* tag_buffer()
+{
+    static char buf[8];
+    return buf;
+}
+template <typename L, int SEV>
+auto make_stream_buf()
+{
+    char* b = tag_buffer();
+    strcpy(b, "tg");
+    if constexpr (SEV == 0)
+        return L::trace(b);
+    else if constexpr (SEV == 1)
+        return L::debug(b);
+    else if constexpr (SEV == 2)
+        return L::info(b);
+    else if constexpr (SEV == 3)
+        return L::warn(b);
+    else if constexpr (SEV == 4)
+        return L::error(b);
+    else
+        return L::fatal(b);
 }
 
 template <typename L, int SEV>
@@ -330,9 +369,15 @@ void run_stmt_sev(const Stmt& st)
                   "a statement below the compile-time minimum must have the null stream type, one at or above it must not");
     if (st.form == 'A')
         feed_chain<L, SEV>(make_stream<L, SEV>(st.tagged), st, 0);
+    else if (st.tagged)
+    {
+        auto s = make_stream_buf<L, SEV>();
+        strcpy(tag_buffer(), "XX"); // the caller reuses its buffer while the stream object is still open
+        feed_named<L, SEV>(s, st);
+    }
     else
     {
-        auto s = make_stream<L, SEV>(st.tagged);
+        auto s = make_stream<L, SEV>(false);
         feed_named<L, SEV>(s, st);
     }
 }
@@ -392,6 +437,7 @@ void overlapping(const Stmt& a, const Stmt& b)
             case I_CALLB: s1 << CallB{ id }; break;
             case I_MARK: s1 << Marker{ id }; break;
             case I_HEX: s1 << std::hex; break;
+            case I_NULL: s1 << static_cast<const char*>(nullptr); break;
             default: s1 << CallNest<L, SEV>{ id }; break;
             }
         }
@@ -408,6 +454,7 @@ void overlapping(const Stmt& a, const Stmt& b)
             case I_CALLB: s2 << CallB{ id }; break;
             case I_MARK: s2 << Marker{ id }; break;
             case I_HEX: s2 << std::hex; break;
+            case I_NULL: s2 << static_cast<const char*>(nullptr); break;
             default: s2 << CallNest<L, SEV>{ id }; break;
             }
         }
@@ -449,6 +496,7 @@ inline void ref_items(int e, const int t[3], const Stmt& st, std::vector<Event>&
             o << "<m" << id << ">"; // (the marker prints its id with whatever base is active, like the implementation)
             break;
         case I_HEX: o << std::hex; break;
+        case I_NULL: o << static_cast<const char*>(nullptr); break;
         default:
         {
             ev.push_back(Event{ 'C', id });
